@@ -464,6 +464,23 @@ def check(pm: ProgramModel, ctx: Ctx) -> None:
     ctx.check(okf, "C17-FILTER", "filter", where_cls, "a metric filter selects exactly the named metrics",
               bad=f"filter ['leaf_features','or_groups'] reports "
                   f"{[e['name'] for e in rep] if isinstance(rep, list) else rep}")
+    # a filter set once on an operation object applies to every model it is given afterwards, and is the caller's list
+    itf = Interp(pm, max_depth=60)
+    try:
+        opf = itf.eval_call_class(fmm)
+        mine = ["leaf_features", "or_groups"]
+        itf.call(pm.method(fmm, "only_these_metrics"), [opf, mine])
+        seq = []
+        for mdl in (rich_model(mb), same_names_pair(mb)[0], rich_model(mb)):
+            itf.call(ex, [opf, mdl])
+            res_ = itf.call(gr, [opf])
+            seq.append(sorted(e["name"] for e in res_) if isinstance(res_, list) else res_)
+        ctx.check(all(x == ["Leaf features", "Or groups"] for x in seq),
+                  "C17-FILTER", "filter:same-object-three-models", where_cls,
+                  "a filter set once selects the named metrics for every model analysed afterwards with the same object",
+                  bad=f"one operation object with the filter ['leaf_features', 'or_groups'] over three models reports {seq}")
+    except (AbsRaise, AbsMutation) as exc:
+        ctx.violation("C17-FILTER", "filter:same-object-three-models", where_cls, f"raises {exc.what}")
     # every metric requested alone is the entry of the full report (nothing it needs is skipped by the filter)
     full = report(fm)
     full_by = {e["name"]: (e["result"], e["size"], e["ratio"]) for e in full} if isinstance(full, list) else {}
